@@ -1962,7 +1962,7 @@ def coneqp(P, q, G = None, h = None, dims = None, A = None, b = None,
         if matrixA and b.size[0] != A.size[0]:
             raise TypeError("'b' must have length %d" %A.size[0])
     if b is None and customy:
-        raise ValueEror("use of non-vector type for y requires b")
+        raise ValueError("use of non-vector type for y requires b")
 
 
     ws3, wz3 = matrix(0.0, (cdim,1 )), matrix(0.0, (cdim,1 ))
